@@ -54,10 +54,12 @@ func main() {
 		c := &Ctx{Tier: *tier, Seed: *seed, Drv: &hx.Drv{Path: *drv}, Thorough: *tier == "thorough"}
 		c.Res = hx.NewResult(id, *tier, *seed)
 		t0 := time.Now()
+		defer hx.Cleanup()
 		if err := f(c); err != nil {
 			c.Res.Errorf("harness error: %v", err)
 		}
 		c.Res.Notes = append(c.Res.Notes, fmt.Sprintf("harness wall %.1fs", time.Since(t0).Seconds()))
+		hx.Cleanup()
 		if err := c.Res.Write(*out); err != nil {
 			fmt.Fprintln(os.Stderr, err)
 			os.Exit(2)
